@@ -3224,7 +3224,7 @@ class HasTraits(CHasTraits, metaclass=MetaHasTraits):
                         self._on_trait_change(
                             getattr(object, name), remove=remove
                         )
-                elif name[:-6] == "_fired":
+                elif name[-6:] == "_fired":
                     short_name = name[n:-6]
                     if short_name in traits:
                         self._on_trait_change(
